@@ -41,7 +41,7 @@ def used_non_ascii(case, calls=None) -> bool:
     """Non-ASCII text in a part of the case that the builder program actually uses."""
     calls = set(case["calls"] if calls is None else calls)
     parts = [case["title"]]
-    if case["target"] == "file":
+    if case["target"] in ("file", "handle"):
         parts.append(case["fname"])
     if "pix" in calls:
         parts.append(case.get("runs"))
@@ -179,7 +179,8 @@ def sqw_programs(draw, tier="quick", force_pix=False):
         calls.insert(draw(st.integers(0, len(calls))), "pix")
     case = {
         "byteorder": draw(st.sampled_from(["native", "little", "big"])),
-        "target": draw(st.sampled_from(["bytesio", "bytesio", "file"])),
+        # "file": a path; "handle": a binary file opened by the caller (the documented BinaryIO target)
+        "target": draw(st.sampled_from(["bytesio", "bytesio", "bytesio", "file", "file", "handle"])),
         "fname": draw(fname_text),
         "title": draw(any_text),
         "calls": calls,
@@ -314,12 +315,28 @@ def _write(case, calls=None, tmpdir=None):
     calls = case["calls"] if calls is None else calls
     w = Written()
     w.rows = None
+    handle = None
     if case["target"] == "file":
         w.path = os.path.join(tmpdir, case["fname"])
         target = w.path
+    elif case["target"] == "handle":
+        w.path = None
+        w.handle_path = os.path.join(tmpdir, case["fname"])
+        target = handle = open(w.handle_path, "w+b")  # noqa: SIM115 - closed below
     else:
         w.path = None
         target = BytesIO()
+    try:
+        return _run_builder(case, calls, w, target)
+    finally:
+        if handle is not None:
+            handle.close()
+
+
+def _run_builder(case, calls, w, target):
+    import scipp as sc
+    from scippneutron.io.sqw import Sqw, SqwIXNullInstrument, SqwIXSample, SqwIXSource
+
     builder = Sqw.build(target, title=case["title"], byteorder=case["byteorder"])
     for c in calls:
         if c == "pix":
@@ -344,7 +361,12 @@ def _write(case, calls=None, tmpdir=None):
     chunk = case.get("pix", {}).get("chunk") if "pix" in calls else None
     ret = builder.create() if chunk is None else builder.create(chunk_size=chunk)
     w.returned = ret
-    if w.path is None:
+    if case["target"] == "handle":
+        target.flush()
+        with open(w.handle_path, "rb") as f:
+            w.bytes = f.read()
+        w.target = BytesIO(w.bytes)      # what a reader is given afterwards
+    elif w.path is None:
         w.bytes = target.getvalue()
         w.target = target
     else:
@@ -420,4 +442,4 @@ def rad_of(value, unit):
 
 
 def tmpdir_for(case):
-    return tempfile.TemporaryDirectory(prefix="vfsqw-") if case["target"] == "file" else None
+    return tempfile.TemporaryDirectory(prefix="vfsqw-") if case["target"] in ("file", "handle") else None
